@@ -26,6 +26,37 @@ fn is_self_path(e: &Expr) -> bool {
     }
 }
 
+fn is_ident_path(e: &Expr, name: &str) -> bool {
+    match e {
+        Expr::Path(p) => p.path.is_ident(name),
+        Expr::Paren(p) => is_ident_path(&p.expr, name),
+        Expr::Reference(r) => is_ident_path(&r.expr, name),
+        Expr::Unary(u) if matches!(u.op, UnOp::Deref(_)) => is_ident_path(&u.expr, name),
+        _ => false,
+    }
+}
+
+impl Env {
+    /// the record that is threaded through the statements: (coq name, struct name)
+    fn cur_state(&self) -> Option<(String, String)> {
+        if self.mutating {
+            Some(("self".to_owned(), self.self_ty.clone().unwrap_or_default()))
+        } else {
+            self.local_state.as_ref().map(|(r, s)| (local_name(r), s.clone()))
+        }
+    }
+    fn is_state_expr(&self, e: &Expr) -> bool {
+        if self.mutating {
+            is_self_path(e)
+        } else {
+            match &self.local_state {
+                Some((r, _)) => is_ident_path(e, r),
+                None => false,
+            }
+        }
+    }
+}
+
 type BlockFn<'f, 'u> = dyn FnMut(&mut Tr<'u>, &[Stmt], &Env) -> R<(G, Ty)> + 'f;
 
 impl<'u> Tr<'u> {
@@ -34,11 +65,40 @@ impl<'u> Tr<'u> {
         self.spec.ignore_macros.iter().any(|m| *m == name)
     }
 
+    /// a statement whose only effect is logging: an ignorable macro, or an `if` / `match` / block
+    /// whose branches consist of such statements
+    fn log_only_stmt(&self, s: &Stmt) -> bool {
+        match s {
+            Stmt::Macro(sm) => self.macro_ignorable(&sm.mac),
+            Stmt::Expr(e, _) => self.log_only_expr(e),
+            _ => false,
+        }
+    }
+    fn log_only_expr(&self, e: &Expr) -> bool {
+        match e {
+            Expr::Macro(m) => self.macro_ignorable(&m.mac),
+            Expr::Block(b) if b.label.is_none() => b.block.stmts.iter().all(|s| self.log_only_stmt(s)),
+            Expr::If(i) => {
+                i.then_branch.stmts.iter().all(|s| self.log_only_stmt(s))
+                    && match &i.else_branch {
+                        None => true,
+                        Some((_, e)) => self.log_only_expr(e),
+                    }
+            }
+            Expr::Match(m) => m.arms.iter().all(|a| self.log_only_expr(&a.body)),
+            Expr::Tuple(t) => t.elems.is_empty(),
+            _ => false,
+        }
+    }
+
     fn finish(&mut self, env: &Env, k: &K, sp: Span) -> R<(G, Ty)> {
         match k {
             K::Value(Some(Ty::Unit)) => Ok((raw("tt"), Ty::Unit)),
             K::Value(_) => self.err(sp, "a block that should produce a value ends without one"),
-            K::State => Ok((raw("self"), Ty::Struct(env.self_ty.clone().unwrap_or_default()))),
+            K::State => match env.cur_state() {
+                Some((c, sn)) => Ok((raw(c), Ty::Struct(sn))),
+                None => self.err(sp, "internal: state continuation without a threaded record"),
+            },
             K::Then(rest, env2, k2) => self.block(rest, env2, k2),
         }
     }
@@ -65,9 +125,34 @@ impl<'u> Tr<'u> {
                     None => None,
                 };
                 let mut env2 = env.clone();
+                if let Expr::Try(tr) = init {
+                    // `let p = e?;`: the Err case leaves the function with the same error
+                    let (g, t) = self.expr(&tr.expr, env, None)?;
+                    let (a, b) = match &t {
+                        Ty::Result(a, b) => ((**a).clone(), (**b).clone()),
+                        _ => return self.err(sp, format!("`?` on a value of type {}", t.coq())),
+                    };
+                    match &env.ret {
+                        Some(Ty::Result(_, b2)) if **b2 == b => {}
+                        _ => return self.err(sp, "`?` whose error type is not the error type of the function"),
+                    }
+                    let binder = self.pattern(pat, &a, &mut env2)?;
+                    let (body, bt) = self.block(rest, &env2, k)?;
+                    return Ok((
+                        G::Match(Box::new(g), vec![(format!("inl {binder}"), body), ("inr e".into(), raw("inr e"))]),
+                        bt,
+                    ));
+                }
                 match self.expr(init, env, hint.as_ref()) {
                     Ok((g, t)) => {
                         let t = hint.unwrap_or(t);
+                        // `let mut x = <record>`: x is threaded through the following statements
+                        if let (Pat::Ident(pi), Ty::Struct(sn)) = (pat, &t) {
+                            let is_view = matches!(self.types.get(sn), Some(TypeInfo::Rec(ri)) if ri.view);
+                            if pi.mutability.is_some() && !is_view && env.cur_state().is_none() {
+                                env2.local_state = Some((pi.ident.to_string(), sn.clone()));
+                            }
+                        }
                         let binder = match pat {
                             Pat::Ident(_) | Pat::Wild(_) => self.pattern(pat, &t, &mut env2)?,
                             Pat::Tuple(_) => format!("'{}", self.pattern(pat, &t, &mut env2)?),
@@ -129,6 +214,10 @@ impl<'u> Tr<'u> {
                 if rest.is_empty() && semi.is_none() {
                     if let K::Value(h) = k {
                         return self.tail_value(e, env, h.as_ref());
+                    }
+                    // `fn set_x(&mut self, ..) -> &mut Self { ..; self }`
+                    if matches!(k, K::State) && env.mutating && is_self_path(e) {
+                        return self.finish(env, k, e.span());
                     }
                 }
                 self.stmt_expr(e, rest, env, k)
@@ -262,6 +351,20 @@ impl<'u> Tr<'u> {
                     }
                 }
             },
+            Expr::Try(tr) => {
+                // `e?;`: the Ok value is dropped, the Err case leaves the function with the same error
+                let (g, t) = self.expr(&tr.expr, env, None)?;
+                let b = match &t {
+                    Ty::Result(_, b) => (**b).clone(),
+                    _ => return self.err(sp, format!("`?` on a value of type {}", t.coq())),
+                };
+                match &env.ret {
+                    Some(Ty::Result(_, b2)) if **b2 == b => {}
+                    _ => return self.err(sp, "`?` whose error type is not the error type of the function"),
+                }
+                let (body, bt) = self.block(rest, env, k)?;
+                Ok((G::Match(Box::new(g), vec![("inl _".into(), body), ("inr e".into(), raw("inr e"))]), bt))
+            }
             Expr::Assign(_) | Expr::Binary(_) => {
                 let (target, rhs, add) = match e {
                     Expr::Assign(a) => (&*a.left, &*a.right, false),
@@ -294,7 +397,16 @@ impl<'u> Tr<'u> {
             }
             Expr::If(_) | Expr::Match(_) => {
                 let has_ret = contains_return_expr(e);
-                if has_ret || !env.mutating {
+                if !has_ret && self.log_only_expr(e) {
+                    self.notes.push(format!(
+                        "{}:{}: statement dropped: its branches only log (its conditions are not translated)",
+                        self.cur_file,
+                        sp.start().line
+                    ));
+                    return self.block(rest, env, k);
+                }
+                let state = env.cur_state();
+                if has_ret || state.is_none() {
                     if !has_ret {
                         return self.err(sp, "statement without an effect on the result");
                     }
@@ -313,25 +425,28 @@ impl<'u> Tr<'u> {
                         _ => unreachable!(),
                     };
                     let (body, bt) = self.block(rest, env, k)?;
-                    Ok((mk_let("self".into(), Box::new(g), Box::new(body)), bt))
+                    Ok((mk_let(state.unwrap().0, Box::new(g), Box::new(body)), bt))
                 }
             }
             Expr::Block(b) if b.label.is_none() => {
                 let cont = K::Then(rest, env.clone(), k);
                 self.block(&b.block.stmts, env, &cont)
             }
-            Expr::MethodCall(m) if is_self_path(&m.receiver) && env.mutating => {
-                let sname = env.self_ty.clone().unwrap_or_default();
+            Expr::MethodCall(m) if env.cur_state().is_some() && env.is_state_expr(&m.receiver) => {
+                let (sc, sname) = env.cur_state().unwrap();
                 let key = format!("{sname}::{}", m.method);
                 let fi = self.ensure_fn(&key, sp)?;
                 if !fi.mutating {
                     return self.err(sp, "statement without an effect on the result");
                 }
+                if fi.partial {
+                    return self.err(sp, format!("`{key}` has opaque inputs or untranslated parameters"));
+                }
                 let args: Vec<&Expr> = m.args.iter().collect();
-                let mut gs = vec![raw("self")];
+                let mut gs = vec![raw(sc.clone())];
                 gs.extend(self.call_args(args, &fi.params, env, sp)?);
                 let (body, bt) = self.block(rest, env, k)?;
-                Ok((mk_let("self".into(), Box::new(app(&fi.coq, gs)), Box::new(body)), bt))
+                Ok((mk_let(sc, Box::new(app(&fi.coq, gs)), Box::new(body)), bt))
             }
             Expr::Macro(m) if self.macro_ignorable(&m.mac) => self.block(rest, env, k),
             _ => self.err(sp, format!("unsupported statement `{}`", {
@@ -381,6 +496,22 @@ impl<'u> Tr<'u> {
         r
     }
 
+    /// the opaque inputs met so far (callee key, parameter name, type), in the order of the spec's
+    /// opaque_calls list (not of occurrence, which a harmless rewrite may change)
+    fn opaque_in_spec_order(&self) -> Vec<(String, String, Ty)> {
+        let mut ops: Vec<(usize, String, String, Ty)> = Vec::new();
+        for (site, n, t) in &self.opaque {
+            let key = site.split('@').next().unwrap_or("").to_owned();
+            if ops.iter().any(|(_, k, _, _)| *k == key) {
+                continue;
+            }
+            let pos = self.spec.opaque_calls.iter().position(|k| *k == key).unwrap_or(usize::MAX);
+            ops.push((pos, key, n.clone(), t.clone()));
+        }
+        ops.sort_by_key(|(i, _, _, _)| *i);
+        ops.into_iter().map(|(_, k, n, t)| (k, n, t)).collect()
+    }
+
     fn translate_fn(&mut self, key: &str, sig: &Signature, body: &Block, self_ty: Option<String>) -> R<FnInfo> {
         let sp = sig.span();
         if sig.asyncness.is_some() || sig.unsafety.is_some() || sig.constness.is_some() && false {
@@ -395,6 +526,7 @@ impl<'u> Tr<'u> {
         let mut params = Vec::new();
         let mut has_self = false;
         let mut partial = false;
+        let mut untranslated = false;
         let saved_opaque = std::mem::take(&mut self.opaque);
         let r = (|| -> R<FnInfo> {
         for a in &sig.inputs {
@@ -428,6 +560,7 @@ impl<'u> Tr<'u> {
                             self.poison_pattern(&pt.pat, &mut env, &why, pt.span())?;
                             self.notes.push(format!("{key}: parameter `{}` is not translated ({})", norm(&pt.pat), e.msg));
                             partial = true;
+                            untranslated = true;
                             continue;
                         }
                     };
@@ -447,8 +580,8 @@ impl<'u> Tr<'u> {
             ReturnType::Default => Ty::Unit,
             ReturnType::Type(_, t) => self.ty(t, self_ty.as_deref())?,
         };
-        if env.mutating && ret != Ty::Unit {
-            return self.err(sp, "`&mut self` method that also returns a value");
+        if env.mutating && ret != Ty::Unit && ret != Ty::Struct(self_ty.clone().unwrap_or_default()) {
+            return self.err(sp, "`&mut self` method that also returns a value (other than `&mut Self`)");
         }
         env.ret = Some(ret.clone());
         let (g, _) = if env.mutating {
@@ -459,15 +592,7 @@ impl<'u> Tr<'u> {
         let rty = if env.mutating { Ty::Struct(self_ty.clone().unwrap()) } else { ret };
         // opaque inputs in the order of the spec's opaque_calls list (not of occurrence, which a
         // harmless rewrite may change)
-        let mut ops: Vec<(usize, String, Ty)> = self
-            .opaque
-            .iter()
-            .map(|(site, n, t)| {
-                let key = site.split('@').next().unwrap_or("");
-                (self.spec.opaque_calls.iter().position(|k| k == key).unwrap_or(usize::MAX), n.clone(), t.clone())
-            })
-            .collect();
-        ops.sort_by_key(|(i, _, _)| *i);
+        let ops = self.opaque_in_spec_order();
         for (_, n, t) in &ops {
             binders.push(format!("({n} : {})", t.coq()));
             partial = true;
@@ -476,7 +601,7 @@ impl<'u> Tr<'u> {
         let mut hashed = sig.to_token_stream();
         hashed.extend(body.to_token_stream());
         let origin = format!("{}:{} fn {key} {}", self.cur_file, sig.ident.span().start().line, tok_hash(hashed));
-        let fi = FnInfo { coq: coq.clone(), has_self, mutating: env.mutating, params, ret: rty, partial };
+        let fi = FnInfo { coq: coq.clone(), has_self, mutating: env.mutating, params, ret: rty, partial, untranslated, opaque: ops };
         self.funcs.insert(key.to_owned(), fi.clone());
         self.emit(&coq, text, origin);
         Ok(fi)
